@@ -149,9 +149,20 @@ pub fn default_views(r: &mut Rng) -> (ViewSpec, ViewSpec) {
         post.push((c.clone(), vec![0, i64::MAX], vec![78]));
         post.push((c.clone(), vec![1, i64::MIN], vec![79]));
     }
+    // now and then one key of one view fails (a state error in the middle of a range)
+    let (mut ppre, mut ppost) = (vec![], vec![]);
+    if r.chance(0.04) {
+        let c = if r.chance(0.5) { contract_a() } else { contract_b() };
+        let k = vec![r.range(0, 6)];
+        if r.chance(0.5) {
+            ppre.push((c, k));
+        } else {
+            ppost.push((c, k));
+        }
+    }
     (
-        ViewSpec { entries: pre, script: Script::Range },
-        ViewSpec { entries: post, script: Script::Range },
+        ViewSpec { entries: pre, script: Script::Range, poison: ppre },
+        ViewSpec { entries: post, script: Script::Range, poison: ppost },
     )
 }
 
